@@ -31,6 +31,9 @@ type vfProfile struct {
 	CensusEvery int // census comparison after every n-th top-level step (0 = never)
 	Typed      bool // C15: each key has a value type, value operations are type-consistent
 	ShowPct    int  // share of lock steps that are show-queries (observe the value)
+	AofFailPct int  // share of steps at which the append file is broken / healed (C11)
+	AckRelock  bool // allow the require-ack flag on re-entrant re-locks of an established hold
+	AckData    bool // allow value operations on require-ack requests
 }
 
 var vfTimes = []uint16{0, 1, 1, 2, 2, 3, 3, 4, 5, 7, 8, 9, 10}
@@ -46,6 +49,7 @@ type vfGen struct {
 	sh   *vfShadow
 	countPool []uint16
 	keyType   map[vfKeyId]int
+	ackRelock bool
 }
 
 func vfNewGen(rng *vfRand, p *vfProfile, sh *vfShadow) *vfGen {
@@ -58,6 +62,7 @@ func vfNewGen(rng *vfRand, p *vfProfile, sh *vfShadow) *vfGen {
 	g.nLockIds = rng.Range(p.NLockIds[0], p.NLockIds[1])
 	g.nClients = rng.Range(p.NClients[0], p.NClients[1])
 	g.big = rng.Chance(p.BigTime)
+	g.ackRelock = p.AckRelock && rng.Chance(10)
 	// a script draws its Counts from a small pool so that "every user passes
 	// the same Count" situations are common
 	switch rng.Intn(4) {
@@ -194,11 +199,22 @@ func (g *vfGen) lockOp() vfOp {
 		op.Flag |= protocol.LOCK_FLAG_CONCURRENT_CHECK
 	}
 	// require-ack together with update answers asynchronously through the
-	// ack path: keep those for the C11 engine
+	// ack path: not generated (update is not part of C11's quantifier)
 	if op.TFlag&protocol.TIMEOUT_FLAG_REQUIRE_ACKED != 0 {
-		op.Flag &^= protocol.LOCK_FLAG_UPDATE_WHEN_LOCKED
+		op.Flag &^= protocol.LOCK_FLAG_UPDATE_WHEN_LOCKED | protocol.LOCK_FLAG_SHOW_WHEN_LOCKED
+		if k != nil && k.hold(op.LockId) != nil {
+			if !g.ackRelock {
+				op.TFlag &^= protocol.TIMEOUT_FLAG_REQUIRE_ACKED
+			} else if g.sh.faultSig == "" {
+				// known finding: from here on the script contains a re-entrant
+				// re-lock that carries the require-ack flag
+				g.sh.faultSig = "relock-with-require-ack"
+				vfNoteFaultSig(g.sh.faultSig)
+				g.sh.stats["scripts_relock_with_ack"]++
+			}
+		}
 	}
-	if r.Chance(g.p.DataPct) {
+	if r.Chance(g.p.DataPct) && (g.p.AckData || op.TFlag&protocol.TIMEOUT_FLAG_REQUIRE_ACKED == 0) {
 		op.Data = g.dataOpFor(op.Db, op.Key)
 	}
 	if g.p.ShowPct > 0 && r.Chance(g.p.ShowPct) {
